@@ -14,7 +14,8 @@ Inductive action :=
 | ADropConn
 | AHandleDisconnect
 | ASetBroker (mode : N)
-| ASetPid (pid : N).
+| ASetPid (pid : N)
+| AHeal.                                  (* from here on the transport behaves: the rest of the script is discarded *)
 
 Record case := { c_cfg : config; c_prog : list action; c_script : list (N * N) }.
 
@@ -168,6 +169,7 @@ Definition run_action (a : action) (w : world) : world :=
       if w_conn w then upd_log w (s2t "= pid") else
       let p16 := p mod 65536 in
       upd_log (upd_sess w (set_pid (w_sess w) (if N.eqb p16 0 then 1 else p16))) (s2t "= pid")
+  | AHeal => upd_log (upd_script w []) (s2t "= healed")
   end.
 
 Definition halted (w : world) : bool :=
@@ -181,7 +183,7 @@ Definition action_code (a : action) : N :=
   match a with
   | AConnect _ => 0 | APublish _ => 1 | ASubscribe _ _ => 2 | AUnsubscribe _ _ => 3 | ADisconnect _ => 4
   | ADrive => 5 | APoll => 6 | ARecv => 7 | AFeed _ _ => 8 | AAdvance _ => 9 | ADropConn => 10
-  | AHandleDisconnect => 11 | ASetBroker _ => 12 | ASetPid _ => 13
+  | AHandleDisconnect => 11 | ASetBroker _ => 12 | ASetPid _ => 13 | AHeal => 14
   end.
 
 Definition step_action (w : world) (a : action) : world :=
@@ -228,6 +230,7 @@ Definition p_action : parser action :=
   else if N.eqb k 11 then p_ret AHandleDisconnect
   else if N.eqb k 12 then (m <- p_N ;; p_ret (ASetBroker m))
   else if N.eqb k 13 then (p <- p_N ;; p_ret (ASetPid p))
+  else if N.eqb k 14 then p_ret AHeal
   else fun _ => None.
 
 Definition p_ev : parser (N * N) := k <- p_N ;; a <- p_N ;; p_ret (k, a).
